@@ -35,7 +35,8 @@ def nontrivial(pid, ex):
     if pid == "C18":
         return any(r.get("ev") in ("down", "dead") for r in ex)
     return any(r.get("ev") == "sync" and len(r.get("set", [])) > 0 for r in ex) or any(len(r.get("cmds", [])) > 0 for r in ex) \
-        or any(r.get("ev") == "dlv" and any(len(u) > 0 for u in r.get("upd", [])) for r in ex)
+        or any(r.get("ev") == "dlv" and any(len(u) > 0 for u in r.get("upd", [])) for r in ex) \
+        or any(r.get("ev") == "attempt" and not r.get("ok") for r in ex)
 
 
 def run(pid, tier, replay=None):
@@ -61,6 +62,17 @@ def run(pid, tier, replay=None):
         bg.start()
     binary = V.build_harness(wd)
     traces = []   # (n, rows)
+    if replay and any(r.get("ev") == "issue" for r in V.read_ndjson(replay)):      # a segment of the nfdc stage
+        V.run_harness(binary, "TestNfdcReplay", {"VERIF_OUT": wd, "VERIF_REPLAY": os.path.abspath(replay)})
+        rows = V.read_ndjson(os.path.join(wd, "nfdc_replay.ndjson"))
+        r = V.validate_trace(wd, rows, "NfdcTrace.tla", 'SPECIFICATION TSpec\nCONSTANTS Dev = {} TraceFile = "@TRACE@"\n',
+                             ["T_C19q_fifo", "T_C19q_same", "T_C19q_final"], invariants=["I_C19q_order"], label="nfdcr", timeout=600)
+        if r["blocked"]:
+            raise V.Machinery("nfdc trace not followable (drift): %s" % json.dumps(r["blocked"])[:1500])
+        for v in r["violations"]:
+            path = V.save_violation(pid, v["segment"], {"rule": v["rule"], "event": v["segment"][-1], "model_state": v["state"]})
+            print("VIOLATION property=%s replay=%s" % (pid, path))
+        return 1 if r["violations"] else 0
     if replay:
         V.run_harness(binary, "TestDvSched", {"VERIF_OUT": wd, "VERIF_REPLAY": os.path.abspath(replay)})
         meta = json.load(open(os.path.join(wd, "dv_sched.meta.json")))
@@ -114,6 +126,30 @@ def run(pid, tier, replay=None):
         accepted += r["accepted_execs"]
         events += r["events"]
         viols += r["violations"]
+    # ---- the command worker between the installer and the forwarder (spec/dv/NfdcQueue.tla)
+    if pid == "C19" and not replay:
+        NQ_MC = "SPECIFICATION MSpec\nCONSTANTS Dev = %s MaxCmds = %d MaxFail = %d\nVIEW MView\nINVARIANTS FwdIsIssueOrder InstalledAtQuiescence\nPROPERTIES P_C19queue\nCHECK_DEADLOCK FALSE\n"
+        with open(os.path.join(wd, "mc_nfdc.cfg"), "w") as f:
+            f.write(NQ_MC % ("{}", 4 if th else 3, 3 if th else 2))
+        mc["nfdc"] = V.tlc(wd, "NfdcMC.tla", "mc_nfdc.cfg", workers=6, timeout=1500)
+        with open(os.path.join(wd, "mc_nfdc_neg.cfg"), "w") as f:       # negative control: re-queueing a failed command must be refuted
+            f.write(NQ_MC % ('{"RequeueOnFailure"}', 3, 2))
+        neg = V.tlc(wd, "NfdcMC.tla", "mc_nfdc_neg.cfg", workers=2, timeout=600)
+        if neg.status != "violation":
+            raise V.Machinery("negative control of NfdcQueue not refuted: %s\n%s" % (neg.status, neg.out[-1500:]))
+        V.run_harness(binary, "TestNfdcGen", {"VERIF_OUT": wd, "VERIF_N": 2000 if th else 200}, timeout=3000)
+        rows = V.read_ndjson(os.path.join(wd, "nfdc.ndjson"))
+        nq_execs = V.split_executions(rows)
+        execs_all += nq_execs
+        head = 'SPECIFICATION TSpec\nCONSTANTS Dev = {} TraceFile = "@TRACE@"\n'
+        for ci in range(0, len(nq_execs), 1500):
+            ch = [r for (_, ex) in nq_execs[ci:ci + 1500] for r in ex]
+            r = V.validate_trace(wd, ch, "NfdcTrace.tla", head, ["T_C19q_fifo", "T_C19q_same", "T_C19q_final"], invariants=["I_C19q_order"], label="nfdc%d" % ci, timeout=3000)
+            if r["blocked"]:
+                raise V.Machinery("nfdc trace not followable (drift): %s" % json.dumps(r["blocked"])[:1500])
+            accepted += r["accepted_execs"]
+            events += r["events"]
+            viols += r["violations"]
     if bg:
         bg.join()
     unfinished = []
